@@ -904,8 +904,8 @@ static int _yr_scan_verify_re_match(
     }
     else if (callback_args.forward_matches >= 0)
     {
-      FAIL_ON_ERROR(
-          _yr_scan_match_callback(data + offset, 0, flags, &callback_args));
+      FAIL_ON_ERROR(_yr_scan_match_callback(
+          data + offset, 0, flags | RE_FLAGS_WIDE, &callback_args));
     }
   }
 
